@@ -228,6 +228,14 @@ func rsaPool(rnd *mrand.Rand, pairs, perPair int) []poolKey {
 			}
 		}
 	}
+	// a modulus whose bit length is not a multiple of 8 (and of a size nobody rounds to)
+	for _, bits := range []int{1030, 1031} {
+		k, err := rsa.GenerateKey(rand.Reader, bits)
+		if err != nil {
+			panic(err)
+		}
+		res = append(res, poolKey{Class: fmt.Sprintf("n-bits=%d", k.N.BitLen()), RSA: k})
+	}
 	return res
 }
 
